@@ -625,6 +625,48 @@ func Enum[C any](s *Sub, each func(yield func(C)), chk func(C) []Finding, nontri
 	})
 }
 
+// Watchdog guards sub-checks in which non-termination is what the property is about (C07): the
+// property function calls Enter(case) before and Leave() after the call under test, running it
+// inline. If one call exceeds d, the watchdog goroutine records a "hang" finding for that case,
+// flushes the fragment and ends the process (the stuck goroutine cannot be stopped).
+type Watchdog struct {
+	s     *Sub
+	mu    sync.Mutex
+	cur   any
+	subj  string
+	since time.Time
+}
+
+func NewWatchdog(s *Sub, d time.Duration) *Watchdog {
+	w := &Watchdog{s: s}
+	go func() {
+		for {
+			time.Sleep(d / 10)
+			w.mu.Lock()
+			cur, subj, since := w.cur, w.subj, w.since
+			w.mu.Unlock()
+			if cur != nil && time.Since(since) > d {
+				s.Report(cur, []Finding{{Subject: subj, Kind: "hang", Msg: fmt.Sprintf("call did not return within %v", d)}})
+				s.flush()
+				os.Exit(1)
+			}
+		}
+	}()
+	return w
+}
+
+func (w *Watchdog) Enter(subject string, c any) {
+	w.mu.Lock()
+	w.cur, w.subj, w.since = c, subject, time.Now()
+	w.mu.Unlock()
+}
+
+func (w *Watchdog) Leave() {
+	w.mu.Lock()
+	w.cur = nil
+	w.mu.Unlock()
+}
+
 // WithTimeout runs fn in a goroutine and reports whether it returned within d.
 // Used only where non-termination is what the property is about.
 func WithTimeout(d time.Duration, fn func()) (finished bool) {
